@@ -64,6 +64,14 @@ def _build_dt(c):
         return x0 + bt.TimeDelta.from_ticks(c["delta"])
     if via == "tuple":
         return bt.DateTime.from_tuple(bt.TimeValueTuple(c["t"] >> 64, c["t"] & (T64 - 1)))
+    if via == "offset_iadd":  # built from an offset the caller goes on using: += on it makes a new TimeDelta
+        off = bt.TimeDelta.from_ticks(c["t"])
+        x = bt.DateTime.from_offset(off)
+        _ = (x.year, str(x))
+        off += bt.TimeDelta.from_ticks(c["delta"])
+        off -= bt.TimeDelta.from_ticks(1)
+        off *= 2
+        return x
     if via == "now":          # the clock reading: whatever it is, text and fields must describe x.ticks
         return bt.DateTime.now(UTC)
     raise AssertionError(via)
@@ -247,6 +255,10 @@ def gen_cases(rng, tier):
             cases.append({"k": obs, "via": "tuple", "t": t})
     for _ in range(90 if not big else 600):
         cases.append({"k": rng.choice(["dt_fields", "dt_str", "dt_str", "dt_repr"]), "via": "now", "warm": rng.random() < 0.5})
+    for _ in range(60 if not big else 600):
+        t = rng.randrange(DT_MIN // 2, DT_MAX // 2)
+        cases.append({"k": rng.choice(["dt_fields", "dt_str", "dt_repr"]), "via": "offset_iadd", "t": t,
+                      "delta": rng.choice([1, T64, 86400 * T64, 40 * 86400 * T64 + 12345])})
     for _ in range(400 if not big else 10000):
         y = rng.choice([1, 1903, 1904, 2000, 2024, 9999, rng.randrange(1, 10000)])
         mo = rng.randrange(1, 13)
